@@ -91,6 +91,14 @@ def coq_build(targets, timeout=1500):
         r = subprocess.run(["timeout", str(timeout), "make", "-j8"] + targets, cwd=COQ,
                            capture_output=True, text=True)
         out = r.stdout + r.stderr
+        if r.returncode == 0:
+            # keep the extracted OCaml drivers in step with the models (a no-op unless a model file changed)
+            subprocess.run(["timeout", "600", "make", "Extract.vo"], cwd=COQ, capture_output=True, text=True)
+            ext = os.path.join(VERIF, "ocaml", "extracted")
+            drv = os.path.join(VERIF, "ocaml", "_build", "sldriver")
+            newest = max([os.path.getmtime(os.path.join(ext, f)) for f in os.listdir(ext)] or [0]) if os.path.isdir(ext) else 0
+            if not os.path.exists(drv) or os.path.getmtime(drv) < newest:
+                subprocess.run(["timeout", "600", "sh", os.path.join(VERIF, "ocaml", "build.sh")], capture_output=True, text=True)
         return r.returncode == 0, out, parse_assumptions(out)
     finally:
         fcntl.flock(lock, fcntl.LOCK_UN)
@@ -177,6 +185,8 @@ def finish(ctx, proof, corr, e2e, extra_assumptions=()):
                 lines.append("KNOWN-FINDING: property=%s %s [%s]" % (ctx.pid, k[0][2], sig))
             continue
         nviol += 1
+        if os.environ.get("VERIF_SHOW_SIGS"):
+            print("UNKNOWN-SIG %s :: %s" % (sig, str(desc)[:300]))
         if nviol <= 5:
             path = write_replay(ctx.pid, dict(property=ctx.pid, kind="implementation breaks the property",
                                                signature=sig, description=desc, **rep))
